@@ -848,10 +848,10 @@ inductive Route where
   | asdf
   /-- `pickle` of a `Field` (`__getstate__` / `__setstate__`) -/
   | pickle
-  /-- `pickle` of a `ModeBasis` or `Grid` (default pickling: the object's `__dict__`) -/
+  /-- `pickle` of a `ModeBasis` or `Grid` (default pickling: the object's `__dict__`, arrays by NumPy).  Kind and
+  item size are kept; which byte order NumPy's unpickling hands back depends on the protocol and the memory
+  layout and is not modelled (native here; the harness compares this route up to byte order) -/
   | pickleObject
-  /-- the same with pickle protocol 5: NumPy hands the buffer over with its dtype, byte order included -/
-  | pickleObject5
   /-- FITS file, values inside the embedded ASDF tree (non-separated grids) -/
   | fitsTree
   /-- FITS file, `Field` values as the image HDU -/
@@ -872,7 +872,7 @@ Pickles (a `Field` through `__setstate__`, the arrays inside a pickled `ModeBasi
 byte order: that is what NumPy's array pickling does on the NumPy under test (observed, tied). -/
 def readDType (r : Route) (d : DType) : Except Err DType :=
   match r with
-  | .dict | .asdf | .fitsTree | .pickleObject5 => .ok d
+  | .dict | .asdf | .fitsTree => .ok d
   | .pickle | .pickleObject => .ok d.native
   | .fitsImageField => fitsImageDType d
   | .fitsImageBasis => (fitsImageDType d).map DType.native
